@@ -102,7 +102,11 @@ pub(super) async fn receive_batch_body_no_multipart(
     content_type: &mime::Mime,
     body: impl AsyncRead + Send,
 ) -> Result<BatchRequest, ParseRequestError> {
-    assert_ne!(content_type.type_(), mime::MULTIPART, "received multipart");
+    if content_type.type_() == mime::MULTIPART {
+        return Err(ParseRequestError::Io(std::io::Error::other(
+            "nested multipart content is not supported",
+        )));
+    }
     receive_batch_json(body).await
 }
 
